@@ -76,7 +76,16 @@ func (s *Slicer) follow(c *ssa.Call, callee *ssa.Function, fr *frame) bool {
 	if s.FollowCall != nil {
 		return s.FollowCall(c, callee)
 	}
-	return callee.Pkg != nil && IsRepoPkg(callee.Pkg.Pkg.Path())
+	return callee.Pkg != nil && Analysable(callee)
+}
+
+// Analysable reports whether f has a body and belongs to the repository (or to a fixture).
+func Analysable(f *ssa.Function) bool {
+	if f == nil || f.Blocks == nil || f.Pkg == nil {
+		return false
+	}
+	p := f.Pkg.Pkg.Path()
+	return IsRepoPkg(p) || p == "fx"
 }
 
 func (s *Slicer) walk(v ssa.Value, fr *frame, seen map[visitKey]bool, visit func(n Node) bool) {
@@ -387,6 +396,16 @@ func (s *Slicer) storesInto(a *ssa.Alloc, path []int, fr *frame, seen map[visitK
 
 func (s *Slicer) walkCall(c *ssa.Call, resIdx int, self ssa.Value, fr *frame, seen map[visitKey]bool, visit func(n Node) bool) {
 	callee := c.Call.StaticCallee()
+	if b, ok := c.Call.Value.(*ssa.Builtin); ok && b.Name() == "append" {
+		// the result holds the elements of the base slice and the appended ones
+		if !visit(Node{self, false}) {
+			return
+		}
+		for _, a := range c.Call.Args {
+			s.walk(a, fr, seen, visit)
+		}
+		return
+	}
 	if s.Args {
 		followed := callee != nil && s.follow(c, callee, fr)
 		if !visit(Node{self, false}) {
